@@ -63,7 +63,7 @@ def run(ctx):
         T = tpl.Templates(f)
         found = 0
         for s in T.root_streams():
-            toks = T.stream_tokens(s)
+            toks = T.stream_tokens(s, locals_too=True)
             comps = [(classify(tk), tk) for tk in toks]
             seq = [c for c, tk in comps if c]
             if "declare" not in seq:
